@@ -365,6 +365,9 @@ func main() {
 			run.Count("failkey:" + cs[0].FailKey)
 		}
 	}
+	for k, n := range imageKinds {
+		run.Dist["image-upload:"+k] += n
+	}
 	run.Finish()
 }
 
